@@ -37,12 +37,17 @@ def run_impl(srcs, mode="exec", workers=16):
 def run_ref(srcs, mode="exec", workers=8):
     results = [None] * len(srcs)
     def work(idx_list):
-        inp = "".join(json.dumps(_case(srcs[i], mode)) + "\n" for i in idx_list)
-        p = subprocess.run([sys.executable, os.path.join(vlib.VERIF, "tools", "pyref.py")], input=inp,
-                           stdout=subprocess.PIPE, stderr=subprocess.PIPE, text=True, timeout=3000)
-        lines = [l for l in p.stdout.splitlines() if l.startswith("{")]
-        for k, l in enumerate(lines):
-            results[idx_list[k]] = json.loads(l)
+        pending = list(idx_list)
+        while pending:
+            inp = "".join(json.dumps(_case(srcs[i], mode)) + "\n" for i in pending)
+            p = subprocess.run([sys.executable, os.path.join(vlib.VERIF, "tools", "pyref.py")], input=inp,
+                               stdout=subprocess.PIPE, stderr=subprocess.PIPE, text=True, timeout=6000)
+            lines = [l for l in p.stdout.split("\n") if l.startswith("{")]
+            for k, l in enumerate(lines):
+                results[pending[k]] = json.loads(l)
+            if len(lines) >= len(pending) or not lines or not results[pending[len(lines) - 1]].get("hang"):
+                break
+            pending = pending[len(lines):]      # the reference stopped after reporting a non-terminating program
     chunks = [list(range(len(srcs)))[i::workers] for i in range(workers)]
     with concurrent.futures.ThreadPoolExecutor(workers) as ex:
         list(ex.map(work, [c for c in chunks if c]))
